@@ -8,6 +8,7 @@ import (
 )
 
 func init() {
+	vfHarnesses["C07_polygon_options"] = vfhC07PolygonOptions
 	vfHarnesses["C07_collection_line_x"] = vfhC07CollectionLineX
 	vfHarnesses["C07_varint"] = vfhC07Varint
 	vfHarnesses["C07_uvarint"] = vfhC07Uvarint
@@ -477,5 +478,45 @@ func vfhC07CollectionLineX() {
 	loX, hiX := vfMinF(ep, vfMinF(ea, eb)), vfMaxF(ep, vfMaxF(ea, eb))
 	vfAssert(vfAnd(vfEqF(mn.X, loX), vfEqF(mx.X, hiX)), "bbox X range is the range of the decoded X ordinates")
 	vfAssert(vfAnd(vfEqF(mn.Y, ey), vfEqF(mx.Y, ey)), "bbox Y range is the single decoded Y ordinate")
+	vfReach("end")
+}
+
+// Polygons through TWKB with every subset of the writer options, a symbolic
+// coordinate type and concrete integer ordinates (exact at precision 0): a
+// polygon with a hole, alone, in a MultiPolygon and in a GeometryCollection,
+// decodes to the same rings - same lengths, same ordinates incl. Z and M -
+// whether the rings are stored closed or not.
+func vfhC07PolygonOptions() {
+	ct := vfCT("ct")
+	src, err := UnmarshalWKT("POLYGON ZM((0 0 1 2,8 0 3 4,8 8 5 6,0 8 7 8,0 0 1 2),(2 2 9 1,4 2 8 2,4 4 7 3,2 4 6 4,2 2 9 1))")
+	vfAssert(err == nil, "source parses")
+	poly := src.ForceCoordinatesType(ct)
+	var g Geometry
+	switch vfInt("wrap", 0, 2) {
+	case 0:
+		g = poly
+	case 1:
+		other, err := UnmarshalWKT("POLYGON ZM((20 20 1 1,20 24 3 3,24 20 2 2,20 20 1 1))") // clockwise, apart
+		vfAssert(err == nil, "second polygon parses")
+		g = NewMultiPolygon([]Polygon{poly.MustAsPolygon(), other.ForceCoordinatesType(ct).MustAsPolygon()}).AsGeometry()
+	default:
+		g = NewGeometryCollection([]Geometry{NewPoint(Coordinates{XY: XY{1, 1}, Z: 5, M: 6, Type: DimXYZM}).ForceCoordinatesType(ct).AsGeometry(), poly}).AsGeometry()
+	}
+	sizeHdr, bbox, closeRings := vfBool("size"), vfBool("bbox"), vfBool("close-rings")
+	twkb, err := MarshalTWKB(g, 0, vfOpts(sizeHdr, bbox, closeRings, 0, 0, nil)...)
+	vfAssert(err == nil, "marshal succeeds")
+	back, err := UnmarshalTWKB(twkb)
+	vfAssert(err == nil, "unmarshal succeeds")
+	vfAssert(back.Type() == g.Type() && back.CoordinatesType() == ct, "type and coordinate type")
+	vfAssert(ExactEquals(back, g), "same rings, same ordinates (Z and M included), no vertex invented")
+	a, b := g.DumpCoordinates(), back.DumpCoordinates()
+	vfAssert(a.Length() == b.Length(), "same number of control points")
+	sz, has, err := UnmarshalTWKBSize(twkb)
+	vfAssert(err == nil && has == sizeHdr && (!has || sz == len(twkb)), "size header tells the truth")
+	env, hasBB, err := UnmarshalTWKBEnvelope(twkb)
+	vfAssert(err == nil && hasBB == bbox, "bbox header presence")
+	if bbox {
+		vfAssert(env.XYEnvelope == g.Envelope(), "bbox header is the XY envelope")
+	}
 	vfReach("end")
 }
